@@ -71,7 +71,7 @@ def cases(tier, seed):
                             yield {"k": "loc", "req": req, "cwd": cwd, "vcs": vcs, "state": state, "rootopt": rootopt, "fail": fail}
     # the project root is itself a directory called LICENSES
     for req in (["MIT"], ["GPL-2.0+", "LicenseRef-x.1"]):
-        for vcs, rootopt, cwd in (("git", True, "root"), ("git", True, "outside"), ("git", False, "root"), ("none", False, "root"), ("none", True, "root")):
+        for vcs, rootopt, cwd in (("git", True, "root"), ("git", True, "outside"), ("git", False, "root"), ("none", False, "root"), ("none", True, "root"), ("none", True, "outside"), ("none", True, "elsewhere"), ("git", True, "elsewhere")):
             for state in ("absent", "empty"):
                 yield {"k": "loc", "req": req, "cwd": cwd, "vcs": vcs, "state": state, "rootopt": rootopt, "fail": None, "rootname": "LICENSES"}
     for variant in ("output-new", "output-existing", "output-two-ids", "source-file", "source-dir", "source-missing", "source-dir-missing-file",
@@ -178,8 +178,10 @@ def ev_loc(c) -> R:
     (root / "LICENSES").mkdir(exist_ok=True) if c["cwd"] == "licenses" else None
     if c["vcs"] == "git":
         gitrepo.init(root)
-    cwd = {"root": root, "subdir": root / "src" / "sub", "licenses": root / "LICENSES", "outside": base}[c["cwd"]]
+    cwd = {"root": root, "subdir": root / "src" / "sub", "licenses": root / "LICENSES", "outside": base, "elsewhere": base / "elsewhere"}[c["cwd"]]
+    cwd.mkdir(exist_ok=True)
     before = read_tree(root)
+    around = read_tree(base / "elsewhere") if c["cwd"] == "elsewhere" else None
     argv = (["--root", str(root)] if c["rootopt"] else []) + ["download", *c["req"]]
     assign = {strip_plus(c["req"][0]): c["fail"]} if c["fail"] else {}
     with stub_net(outcome_fn(assign)) as urls:
@@ -212,6 +214,8 @@ def ev_loc(c) -> R:
     for p in expect_new:
         if p not in after:
             r.violation(f"not-downloaded|{sig}", f"{label}: {p} was not written; new files {sorted(set(after) - set(before))}; stdout {out.stdout[-200:]!r}")
+    if around is not None and read_tree(base / "elsewhere") != around:
+        r.violation(f"written-outside-root|{sig}", f"{label}: files appeared in the working directory, which is not in the project: {sorted(read_tree(base / 'elsewhere'))}")
     r.outcome = f"loc-exit{min(out.exit_code, 1)}"
     r.tags.append("loc")
     return r
